@@ -433,3 +433,121 @@ def _gcd(a, b):
     while b:
         a, b = b, a % b
     return a
+
+
+# ------------------------------------------------------------------------------------------------ full grounding
+
+def _consts_of(prog):
+    cs = []
+    def walk_args(args):
+        for t in args:
+            if t[0] != "v" and (t[0], t[1]) not in cs:
+                cs.append((t[0], t[1]))
+    for s in prog:
+        k = s[0]
+        if k == "fact":
+            walk_args(s[1][1])
+        elif k == "pfact":
+            walk_args(s[2][1])
+        elif k == "ad":
+            for _, a in s[1]:
+                walk_args(a[1])
+            for l in s[2]:
+                walk_args(l[2])
+        elif k == "rule":
+            walk_args(s[1][1])
+            for l in s[2]:
+                walk_args(l[2])
+        elif k in ("query", "evidence"):
+            walk_args(s[1][1])
+    return cs
+
+
+def full_ground_has_negative_cycle(prog):
+    """Does the FULL ground dependency graph (every clause instantiated with every combination of the program's
+    constants, no pruning) contain a cycle through negation?"""
+    consts = _consts_of(prog)
+    edges = {}  # atom -> set((atom, neg))
+    for s in prog:
+        if s[0] == "rule":
+            heads, body = [s[1]], s[2]
+        elif s[0] == "ad":
+            heads, body = [a for _, a in s[1]], s[2]
+        else:
+            continue
+        vs = _clause_vars(heads, body)
+        for combo in itertools.product(consts, repeat=len(vs)):
+            subst = dict(zip(vs, combo))
+            for h in heads:
+                ha = (h[0], _inst(h[1], subst))
+                d = edges.setdefault(ha, set())
+                for l in body:
+                    d.add(((l[1], _inst(l[2], subst)), bool(l[0])))
+    return _has_neg_cycle(edges)
+
+
+def _has_neg_cycle(edges):
+    nodes = set(edges)
+    for d in edges.values():
+        for a, _ in d:
+            nodes.add(a)
+    # Tarjan SCC (iterative)
+    index = {}
+    low = {}
+    on = set()
+    stack = []
+    comp = {}
+    cnt = [0]
+    ncomp = [0]
+    for root in sorted(nodes):
+        if root in index:
+            continue
+        work = [(root, iter(sorted(a for a, _ in edges.get(root, ()))))]
+        index[root] = low[root] = cnt[0]
+        cnt[0] += 1
+        stack.append(root)
+        on.add(root)
+        while work:
+            v, it = work[-1]
+            adv = False
+            for w in it:
+                if w not in index:
+                    index[w] = low[w] = cnt[0]
+                    cnt[0] += 1
+                    stack.append(w)
+                    on.add(w)
+                    work.append((w, iter(sorted(a for a, _ in edges.get(w, ())))))
+                    adv = True
+                    break
+                elif w in on:
+                    low[v] = min(low[v], index[w])
+            if adv:
+                continue
+            work.pop()
+            if work:
+                low[work[-1][0]] = min(low[work[-1][0]], low[v])
+            if low[v] == index[v]:
+                while True:
+                    w = stack.pop()
+                    on.discard(w)
+                    comp[w] = ncomp[0]
+                    if w == v:
+                        break
+                ncomp[0] += 1
+    for v, d in edges.items():
+        for a, neg in d:
+            if neg and comp[a] == comp[v]:
+                return True
+    return False
+
+
+def relevant_ground_has_negative_cycle(res):
+    """Same, on the relevant ground rules of an evaluate(..., want_masks=True) result."""
+    edges = {}
+    for head, pos, neg, ch in res.rules:
+        d = edges.setdefault(head, set())
+        for p in pos:
+            d.add((p, False))
+        for n in neg:
+            d.add((n, True))
+    return _has_neg_cycle(edges)
